@@ -115,6 +115,16 @@ def digest(x):
     return hashlib.sha1(s.encode()).hexdigest()[:16], s
 
 
+def ambient():
+    """digest of the interpreter-wide settings that later prtpy calls DEPEND on: the recursion limit (cbldm recurses once per item and documents the limit as
+    its size bound) and numpy's floating-point / integer error handling (np.seterr(over="raise") turns a tolerated overflow into an exception).
+    A call that leaves them changed has changed the result of some later call.  (The warnings filters are left out on purpose: lazy imports of third-party
+    modules may legitimately add one the first time they run.)"""
+    import sys
+    import numpy as np
+    return digest(["amb", sys.getrecursionlimit(), sorted(np.geterr().items())])[0]
+
+
 def call(desc, store=None):
     """perform one menu call; returns (ret_digest, ret_text, before_digest, after_digest).  store: the caller's containers of this history, by name"""
     d = _drive()
@@ -181,8 +191,9 @@ def run_seq(seq):
     evs = []
     store = {}
     for c in seq:
+        amb0 = ambient()
         rd, rt, b, a = call(M[c - 1], store)
-        evs.append({"c": c, "ret": rd, "text": rt[:160], "before": b, "after": a, "obj": M[c - 1]["kw"].get("obj", "")})
+        evs.append({"c": c, "ret": rd, "text": rt[:160], "before": b, "after": a, "obj": M[c - 1]["kw"].get("obj", ""), "amb0": amb0, "amb1": ambient()})
     return evs
 
 
@@ -191,6 +202,6 @@ if __name__ == "__main__":
     if sys.argv[1] == "fresh":
         i = int(sys.argv[2])
         rd, rt, b, a = call(build_menu()[i - 1], {})
-        print(json.dumps({"c": i, "ret": rd, "text": rt[:160], "before": b, "after": a, "obj": ""}))
+        print(json.dumps({"c": i, "ret": rd, "text": rt[:160], "before": b, "after": a, "obj": "", "amb0": "", "amb1": ""}))
     elif sys.argv[1] == "size":
         print(len(build_menu()))
